@@ -417,6 +417,14 @@ def run_ops(c, tier):
                                        lambda a, nn=nn, axis=axis: np.fft.ifft(a, n=nn, axis=axis), cls='n=%s|axis%s' % ('None' if nn is None else 'int', '=-1' if axis == -1 else '!=-1'))
                 else:
                     compare_op(c, 'fft', 'vector|' + tag, x, X, algopy.fft.fft, np.fft.fft, cls='vector')
+            # stacks of matrices: numpy.triu / tril act on the LAST two axes
+            for shape in [(2, 3, 3), (3, 2, 4), (2, 2, 3, 2)]:
+                X = fill(shape, D, P, cplx)
+                x = UTPM(X.copy())
+                tag = 'complex' if cplx else 'real'
+                for k in (-1, 0, 1, 2):
+                    compare_op(c, 'triu', 'stack k=%d|%s' % (k, tag), x, X, lambda a, k=k: algopy.triu(a, k), lambda a, k=k: np.triu(a, k), cls='stack of matrices')
+                    compare_op(c, 'tril', 'stack k=%d|%s' % (k, tag), x, X, lambda a, k=k: algopy.tril(a, k), lambda a, k=k: np.tril(a, k), cls='stack of matrices')
             # zeros / ones with a polynomial dtype carrier
             for carrier_shape in [(), (2,)]:
                 C = fill(carrier_shape, D, P, cplx)
